@@ -19,11 +19,11 @@ PROP = "C10"
 LEVEL = "fault_enumeration"
 BUDGET = {"quick": 150, "thorough": 900}
 EXHAUSTIVE = {"quick": True, "thorough": True}
-RULE = ("Grid (complete): starttls argument {False, True, 1 (truthy, not the True singleton)} x server STARTTLS support {no,yes} x SASL announcement variant "
+RULE = ("Grid (complete): starttls argument {False, True, 1, 'required' (truthy, not the True singleton)} x server STARTTLS support {no,yes} x SASL announcement variant "
         "(same pre/post; pre PLAIN -> post LOGIN only; pre none -> post PLAIN; pre PLAIN -> post none; no SASL capability; post look-alike names only) x "
         "authmech {None, PLAIN, LOGIN, OAUTHBEARER, DIGEST-MD5, unknown} x one fault (or none) at a handshake step: greeting "
         "{refuse, BYE, NO, silence, close, garbage, missing OK}, STARTTLS {NO, BYE, silence, close, OK followed by an injected plaintext capability block}, TLS handshake "
-        "{SSLError, cert error, timeout, EOF}, post-TLS capabilities {BYE, NO, silence, close, garbage, missing OK}, "
+        "{SSLError, cert error, timeout, EOF}, post-TLS capabilities {BYE, NO, silence, close, garbage, missing OK, a complete listing with a line that is not UTF-8 / blank}, "
         "AUTHENTICATE {NO, BYE, silence, close}, verdict {NO, BYE, wrong password, NO carrying valid final SASL data}; BYEs also with a REFERRAL response code. Every cell runs the history: the 8 "
         "script methods before connect; connect; the 8 script methods + capability; a second connect on the same object "
         "(refused / failing authentication / succeeding); the 8 script methods again. Then random histories (<= 8 calls "
@@ -54,17 +54,17 @@ FAULTS = [None] + \
     [("greeting", k) for k in ("refuse", "bye", "no", "silent", "close", "garbage", "nook", "bye-referral")] + \
     [("starttls", k) for k in ("NO", "BYE", "silent", "close", "inject", "BYE-referral")] + \
     [("tls", k) for k in ("sslerror", "certerror", "timeout", "eof")] + \
-    [("postcaps", k) for k in ("bye", "no", "silent", "close", "garbage", "nook")] + \
+    [("postcaps", k) for k in ("bye", "no", "silent", "close", "garbage", "nook", "badline-utf8", "badline-blank")] + \
     [("authenticate", k) for k in ("NO", "BYE", "silent", "close", "BYE-referral")] + \
     [("verdict", k) for k in ("NO", "BYE", "badpw", "NO-sasl", "BYE-referral")]
 SECOND = ["refuse", "badpw", "ok", "greeting-close"]
-ST_VALUES = [False, True, 1]      # the starttls argument: 1 = a truthy value that is not the True singleton
+ST_VALUES = [False, True, 1, "required"]      # the starttls argument: 1 / "required" = truthy values that are not the True singleton
 KIND = {"NO": F_NO, "BYE": F_BYE, "silent": F_SILENT, "close": F_CLOSE, "BYE-referral": F_BYE, "NO-sasl": F_NO}
 
 
 def all_cells():
     cells = []
-    for st_arg in (0, 1, 2):
+    for st_arg in range(len(ST_VALUES)):
         for srv_tls in (0, 1):
             for sv in range(len(SASL_VARIANTS)):
                 for am in range(len(AUTHMECHS)):
@@ -248,7 +248,7 @@ def run(ch, config, res):
         second = config.get("second", 0)
     else:
         with ch.scope("run"):
-            st_arg = wl.int("starttls", 3)
+            st_arg = wl.int("starttls", len(ST_VALUES))
             srv_tls = 1 - wl.int("srv_notls", 2)
             sv = wl.int("sasl", len(SASL_VARIANTS))
             am = wl.int("authmech", len(AUTHMECHS))
